@@ -169,4 +169,36 @@ PROPS = {
             ],
         },
     },
+    "C09": {
+        "target": "c09",
+        "tiers": {
+            "quick": {"count": 4000000, "budget_s": 45, "workers": 16, "recheck": 50},
+            "thorough": {"count": 200000000, "budget_s": 1200, "workers": 16, "recheck": 100},
+        },
+        "describe": {
+            "rule": ("one run = one seeded plan: 2..6 (quick) / 2..16 (thorough) threads, each constructing its own handler from the recipe "
+                     "menu (list destinations with separators drawn from , ; : . + | so that neighbouring threads differ, checks, formats, "
+                     "cardinalities, argument and handler constraints, abbreviations, in a minority usage output through the Groups "
+                     "singleton) and evaluating its own rule-obeying or mutated command line 1..3 times, plus a schedule (random "
+                     "preemption 1/p at every non-stack load/store and synchronisation call, PCT, round-robin). The same jobs are first "
+                     "run one after the other on the main thread (reference). Non-trivial: at least one preemption happened. Distinct: "
+                     "distinct hashes over the executed context-switch sequence and all per-thread records."),
+            "sim_time_unit": "scheduler steps (schedule points executed); no wall-clock time passes inside a run",
+            "state_measure": "distinct (number of threads, number of different recipe sets among them) tuples",
+            "distinct_measure": "distinct context-switch sequences (hash over (thread, local point, successor, kind) of every switch) combined with the per-thread results",
+            "components": {
+                "real": ["celma::prog_args::Handler and everything it uses (ArgListParser, TypedArg<...>, common::Tokenizer, ConstraintContainer, "
+                         "format::toString, Groups/Singleton for usage)", "boost::lexical_cast / tokenizer (header code compiled with instrumentation)",
+                         "libstdc++ std::thread, iostreams", "ThreadSanitizer (clang 14) inside every run"],
+                "stub": ["OS thread scheduler: replaced by the baton scheduler (sim/sched.cpp) over real pthreads"],
+            },
+            "assumptions": [
+                "handlers with hfInGroup are excluded (they share the Groups registry by design); file and environment sources are not used in this check",
+                "only sequentially consistent interleavings of instrumented accesses are executed; weak-memory effects are covered through ThreadSanitizer's happens-before analysis only",
+                "first-use races of C++ function-local statics are not explored: the reference run initialises them before the threads start",
+                "code inside libstdc++.so / libc is atomic for the scheduler and invisible to ThreadSanitizer",
+                "sampling, not enumeration",
+            ],
+        },
+    },
 }
